@@ -87,6 +87,8 @@ func TestVerifRfc8888Exec(t *testing.T) {
 
 func vfRunRecorder(t *testing.T, sc *vfCcfbScript, out *vfWriter) {
 	t.Helper()
+	kept := out.NewKept()
+	defer kept.Flush()
 	rec := NewRecorder()
 	for _, st := range sc.Steps {
 		switch st.A {
@@ -96,6 +98,8 @@ func vfRunRecorder(t *testing.T, sc *vfCcfbScript, out *vfWriter) {
 		case "build":
 			rep := rec.BuildReport(vfAt(sc.Base, st.Now), st.Max)
 			out.Emit(vfReportEvent(st.Now, st.Max, rep))
+			now, maxSize := st.Now, st.Max
+			kept.Keep(func() any { return vfReportEvent(now, maxSize, rep) })
 		default:
 			t.Fatalf("VERIF-INFRA unknown step %q", st.A)
 		}
@@ -131,6 +135,8 @@ func (t *vfTicker) Stop()                {}
 // select, so the order add/build of the script is the order seen by the Recorder.
 func vfRunSender(t *testing.T, sc *vfCcfbScript, out *vfWriter) { //nolint:cyclop
 	t.Helper()
+	kept := out.NewKept()
+	defer kept.Flush()
 	clock := &vfClock{now: vfAt(sc.Base, 0)}
 	tick := &vfTicker{c: make(chan time.Time)}
 	opts := []Option{SenderTicker(func(time.Duration) ticker { return tick }), SenderNow(clock.Now)}
@@ -220,6 +226,8 @@ func vfRunSender(t *testing.T, sc *vfCcfbScript, out *vfWriter) { //nolint:cyclo
 					out.Emit(vfReportEvent(st.Now, int(ic.maxReportSize), nil))
 				} else {
 					out.Emit(vfReportEvent(st.Now, int(ic.maxReportSize), pkts[0]))
+					now, maxSize, pkt := st.Now, int(ic.maxReportSize), pkts[0]
+					kept.Keep(func() any { return vfReportEvent(now, maxSize, pkt) })
 				}
 			case <-time.After(20 * time.Second):
 				t.Fatalf("VERIF-INFRA no report was written within 20 s of a tick")
